@@ -242,6 +242,10 @@ class C18Step1D(_Base):
         steps = []
         for op in p["ops"]:
             expect, thunk, other = self._call(E, p, x, h, g, op)
+            if steps and steps[0]["op"] in ("merge2", "fill", "fill_n") and op in ("iadd_same", "set_freq_shape", "merge2"):
+                # the first step changed the bin layout (merge / adaptive growth): whether the operand still has the same bins, or a
+                # 3-element array still has the wrong shape, depends on the state - the outcome is not fixed by the call alone
+                expect = "maybe"
             before = full(E, h)
             ob = full(E, other) if other is not None else None
             r = E.attempt(thunk)
